@@ -496,3 +496,27 @@ for _op in _OPS:
     _c = REG[f"bumpver.setuptools_v65_version._BaseVersion.{_op}"]
     _c.setup = _two_versions_setup2
     _c.replayer = _cmp_replayer(_op)
+
+
+# --------------------------------------------------------------------------- _parse_letter_version: spelling normalisation (C15/C16)
+CANON = {"a": "a", "alpha": "a", "b": "b", "beta": "b", "c": "rc", "rc": "rc", "pre": "rc", "preview": "rc", "post": "post", "rev": "post", "r": "post", "dev": "dev"}
+
+
+def _case_variants(w):
+    return sorted({w, w.upper(), w.capitalize(), w[:-1] + w[-1].upper()})
+
+
+_LETTERS = [v for w in CANON for v in _case_variants(w)]
+
+c = REG.new("bumpver.setuptools_v65_version._parse_letter_version")
+c.param("letter", KEnum(_LETTERS))
+c.param("number", KOpt(KStr()))
+c.requires("number_is_digits", lambda a: b_or(v_is_none(a.number), z3.InRe(V.z3str(V.unwrap_opt(a.number)), z3.Plus(z3.Range("0", "9")))))
+c.ensures(
+    "C16+C15._parse_letter_version.every_spelling_and_case_gives_the_canonical_letter_and_number",
+    lambda a, res, cx: b_and(
+        isinstance(res, tuple) and len(res) == 2,
+        v_eq(res[0], V.v_map(lambda l: CANON[l.lower()], a.letter)) if isinstance(res, tuple) else False,
+        v_eq(res[1], v_ite(v_is_none(a.number), 0, SInt(z3.StrToInt(V.z3str(V.unwrap_opt(a.number)))))) if isinstance(res, tuple) else False,
+    ),
+)
